@@ -650,6 +650,10 @@ def c_backend_rule(ck, mod, ks, label):
             bad = None
             for pid, i in sphi.items():
                 got = p.env.get(("back", pid))
+                if irx.is_word(got) and any(b_ is gf2.TOP for b_ in got):
+                    # (a key word fetched through a table the executor does not read, a data-dependent shift ...): no verdict on such values
+                    raise Broken("%s: state word %d after one loop iteration is not representable in the term domain (a load the executor cannot resolve - a key word selected through "
+                                 "a table, ...): this shape is not analysed" % (fname, i))
                 if not irx.is_word(got) or got != exp[i]:
                     bad = (i, got)
             ck.ob(bad is None, "R-C05-STEP", fname, "iteration@c32/%s%s" % (ks, tagk), "one loop iteration (%d rounds) carries exactly the bit-serial specification applied %d times" % (J, 128 * J),
@@ -703,6 +707,8 @@ def c_backend_rule(ck, mod, ks, label):
             for bb in range(4):
                 cell = outs.get((st, 4 * i + bb))
                 bits.extend(cell if cell is not None else [None] * 8)
+            if any(cell is not None for cell in [outs.get((st, 4 * i + bb)) for bb in range(4)]) and any(b_ is gf2.TOP for b_ in bits if b_ is not None):
+                raise Broken("%s: state word %d stored on an exit path is not representable in the term domain (a load the executor cannot resolve): this shape is not analysed" % (fname, i))
             if bits != exp[i]:
                 # untouched memory is fine only if the expected value is the initial memory word (never the case after the loads)
                 bad = (i, bits)
